@@ -167,6 +167,8 @@ def strsOf (s : String) : List String := if s = "-" then [] else s.splitOn ","
 def verifyOp (toks : List String) : Option String :=
   open AC.Verify in
   match toks with
+  | ["eq.check", rs] =>
+    (listOf? frOf? rs).map fun rs => toString (allEqual rs)
   | ["vf.disclosed", req, labels, types, rep, inner] =>
     match (strsOf types).mapM typeOf?, reportedOf? rep, rvlOf? inner with
     | some types, some rep, some inner =>
